@@ -143,7 +143,100 @@ def run(ctx):
                [site(b, bb) for b, bb, _ in bad])
         ctx.floor(R5, n_cast, 6, 'numeric `as` casts in ArrayImpl::cast kernels')
 
-    R6 = 'C14-R6'
+    clear_null_rule(ctx, prog, 'C14-R6')
+
+    R7 = 'C14-R7'
+    ctx.rule(R7, 'raw-slot kernels are infallible: a function that iterates raw slots (raw_iter) applies no fallible per-slot function '
+                 '(no `?`, no collect into Result): a check that can fail must only see valid slots, otherwise whatever lies under '
+                 'a NULL produces a spurious error')
+    raw_groups = sorted({c.body.root for c in prog.calls_matching(re.compile(r'::raw_iter$'))
+                         if c.body.name.startswith('array::')})
+    ctx.floor(R7, len(raw_groups), 4, 'function groups iterating raw slots')
+    for root in raw_groups:
+        fall = []
+        for g in prog.group(root):
+            ctx.functions_analysed.add(g.name)
+            for c in g.calls:
+                n = c.name or ''
+                if (c.fn or '').endswith('Try::branch') or (c.fn or '').endswith('FromResidual::from_residual'):
+                    fall.append((g, c))
+                elif re.search(r'Iterator::(collect|try_fold|try_for_each)$', c.fn or '') and 'std::result::Result<' in c.t.get('dest_ty', ''):
+                    fall.append((g, c))
+        ctx.ob(R7, f'{short(root)}', not fall,
+               f'{root} iterates raw slots; fallible steps in it: {[short(c.name) for _, c in fall]}', [site(g, c.bb) for g, c in fall[:3]],
+               what=f'{root.rsplit("::", 1)[-1]} applies a fallible conversion to raw slots: the value lying under a NULL can make the '
+                    f'whole batch fail although the row is NULL')
+
+    R8 = 'C14-R8'
+    ctx.rule(R8, 'CASE/IF (select_op): the validity of the result depends on the selector\'s VALUE (which branch is taken), not only '
+                 'on the selector\'s validity: the bitmap given to from_data derives from the selector\'s raw bits')
+    so = prog.body('array::ops::select_op')
+    if ctx.anchor(R8, 'array::ops::select_op', so is not None):
+        from tmpl import origin_locals
+        ctx.functions_analysed.add(so.name)
+        fd = [c for c in so.calls if (c.fn or '').endswith('from_data')]
+        if ctx.anchor(R8, 'select_op: from_data', fd):
+            c = fd[0]
+            vloc = c.args[1]['pl']['l'] if len(c.args) > 1 and c.args[1]['k'] != 'const' else None
+            # calls that produce the bitmap, plus the other operands of in-place updates of it (BitVecExt::or(&mut valid, x))
+            srcs = set()
+            chain = {vloc} if vloc is not None else set()
+            grew = True
+            while grew:
+                grew = False
+                for bb_, st in so.stmts():
+                    rv = st.get('rv', {})
+                    if st['lhs']['l'] in chain and not st['lhs']['p'] and rv.get('rv') in ('use', 'ref'):
+                        p_ = rv.get('pl') or (rv['op'].get('pl') if rv['op']['k'] != 'const' else None)
+                        if p_ and p_['l'] not in chain:
+                            chain.add(p_['l'])
+                            grew = True
+                    # a reference to the bitmap: &mut valid
+                    if rv.get('rv') == 'ref' and rv['pl']['l'] in chain and st['lhs']['l'] not in chain:
+                        chain.add(st['lhs']['l'])
+                        grew = True
+            for c2 in so.calls:
+                if c2 is c:
+                    continue
+                if c2.dest['l'] in chain or any(a_['k'] != 'const' and a_['pl']['l'] in chain for a_ in c2.args):
+                    srcs.add(short(c2.name or ''))
+                    for a_ in c2.args:
+                        if a_['k'] != 'const' and a_['pl']['l'] not in chain:
+                            for l in origin_locals(so, a_['pl']['l'], depth=12):
+                                for c3 in so.calls:
+                                    if c3.dest['l'] == l and c3 is not c:
+                                        srcs.add(short(c3.name or ''))
+            uses_value = any(re.search(r'to_raw_bitvec|true_array|raw_iter|from_bool_slice', x) for x in srcs)
+            ctx.ob(R8, 'select_op·validity-from-selector-value', uses_value,
+                   f'validity of the CASE result is computed from: {sorted(x.rsplit("::", 1)[-1] for x in srcs)}', [site(so, c.bb)],
+                   what='select_op derives the result validity from the selector\'s validity only: CASE WHEN false THEN NULL ELSE x END '
+                        'yields NULL instead of x')
+
+    R4 = 'C14-R4'
+    ctx.rule(R4, 'todo!/unimplemented! sites inside evaluation entry points (each is a panic inside an operator task); '
+                 'armed only for sites that are not in the confirmed list')
+    KNOWN_TODO = {OPS + 'extract': 'extract of other fields / from interval', OPS + 'cast': 'casts from Blob/Vector/Timestamp variants'}
+    todo = []
+    for b in prog.bodies.values():
+        if not b.name.startswith('array::ops::') and not b.name.startswith('executor::evaluator::'):
+            continue
+        for c in b.calls:
+            if c.target is None and re.search(r'panicking::panic_fmt|panicking::panic$|core::panicking::panic_', c.fn or ''):
+                # todo!/unimplemented! show up as panic_fmt with "not yet implemented" / "not implemented" in a promoted const
+                txt = ' '.join(str(s) for s in b.rec.get('promoted', []))
+                if 'not yet implemented' in txt or 'not implemented' in txt:
+                    todo.append((b, c))
+    roots = sorted({b.root for b, _ in todo})
+    for r in roots:
+        ctx.ob(R4, f'todo·{short(r)}', r in KNOWN_TODO, f'unimplemented arm(s) in {r}: {KNOWN_TODO.get(r, "NEW")}', nontrivial=False)
+    ctx.extra['todo_sites'] = roots
+
+
+def short(n):
+    return re.sub(r'<[^<>]*>', '', n or '?')
+
+
+def clear_null_rule(ctx, prog, R6):
     ctx.rule(R6, 'boolean results carry `false` under NULL slots: every BoolArray a kernel in array::ops builds with '
                  'unary_op/binary_op/ternary_op goes through clear_null before it becomes an ArrayImpl (filters and joins read the '
                  'raw bits through BoolArray::true_array; `and`/`or` maintain the invariant from their inputs)')
@@ -175,26 +268,3 @@ def run(ctx):
                    f'{r}: {len(sites)} boolean result(s) built by a kernel without clear_null', [site(b, bb) for b, bb in sites[:3]],
                    what=f'ArrayImpl::{fn} builds a boolean array whose raw bits under NULL are not cleared: WHERE / JOIN ON read the '
                         f'raw bit, so a NULL predicate counts as TRUE')
-
-    R4 = 'C14-R4'
-    ctx.rule(R4, 'todo!/unimplemented! sites inside evaluation entry points (each is a panic inside an operator task); '
-                 'armed only for sites that are not in the confirmed list')
-    KNOWN_TODO = {OPS + 'extract': 'extract of other fields / from interval', OPS + 'cast': 'casts from Blob/Vector/Timestamp variants'}
-    todo = []
-    for b in prog.bodies.values():
-        if not b.name.startswith('array::ops::') and not b.name.startswith('executor::evaluator::'):
-            continue
-        for c in b.calls:
-            if c.target is None and re.search(r'panicking::panic_fmt|panicking::panic$|core::panicking::panic_', c.fn or ''):
-                # todo!/unimplemented! show up as panic_fmt with "not yet implemented" / "not implemented" in a promoted const
-                txt = ' '.join(str(s) for s in b.rec.get('promoted', []))
-                if 'not yet implemented' in txt or 'not implemented' in txt:
-                    todo.append((b, c))
-    roots = sorted({b.root for b, _ in todo})
-    for r in roots:
-        ctx.ob(R4, f'todo·{short(r)}', r in KNOWN_TODO, f'unimplemented arm(s) in {r}: {KNOWN_TODO.get(r, "NEW")}', nontrivial=False)
-    ctx.extra['todo_sites'] = roots
-
-
-def short(n):
-    return re.sub(r'<[^<>]*>', '', n or '?')
